@@ -296,7 +296,7 @@ func (x *Exec) doAlloc(st *State, pt types.Type, comment string) Val {
 				name := "mem_" + typeKey(at.Elem()) + l.suffix
 				hs := "(Array Int (Array " + x.sorts.Idx() + " " + l.sort + "))"
 				arr := x.heapArr(st, name, hs)
-				zeroArr := fmt.Sprintf("((as const (Array %s %s)) %s)", x.sorts.Idx(), l.sort, x.zeroLeaf(l))
+				zeroArr := x.zeroLeaf(leaf{sort: fmt.Sprintf("(Array %s %s)", x.sorts.Idx(), l.sort)})
 				x.heapSet(st, name, hs, sto(arr, r, zeroArr))
 			}
 			return p
@@ -619,7 +619,7 @@ func (x *Exec) newSlice(st *State, t types.Type, n, c string) Val {
 		name := "mem_" + typeKey(et) + l.suffix
 		hs := "(Array Int (Array " + x.sorts.Idx() + " " + l.sort + "))"
 		arr := x.heapArr(st, name, hs)
-		zeroArr := fmt.Sprintf("((as const (Array %s %s)) %s)", x.sorts.Idx(), l.sort, x.zeroLeaf(l))
+		zeroArr := x.zeroLeaf(leaf{sort: fmt.Sprintf("(Array %s %s)", x.sorts.Idx(), l.sort)})
 		x.heapSet(st, name, hs, sto(arr, r, zeroArr))
 	}
 	return Val{T: t, K: KSlice, Ref: r, Off: x.idxLit(0), Len: n, Cap: c}
